@@ -111,7 +111,7 @@ def c19b_memloc(F, R):
     sm = self_match(F, sp, MEMLOC)
     writer = {}
     for v, arm in arm_table(sm):
-        pcs = format_pieces(arm["body"])
+        pcs = format_calls_resolved(arm["body"], local_inits(arm["body"]))
         if len(pcs) != 1 or not pcs[0] or pcs[0][0][0] != "lit":
             R.bad(f"writer|{v}", f"UNEXTRACTABLE: cannot read the literal prefix written for {v}", loc(arm))
             continue
@@ -287,7 +287,7 @@ class Unx(Exception):
 
 def _writer_tokens(arm, binds):
     """tokens written for one MemoryLocation variant: ('lit', s) | ('num', k, ty, plus, via) | ('mag', k, ty) | ('sign', k, neg, pos)"""
-    calls = format_calls_ex(arm["body"])
+    calls = format_calls_resolved(arm["body"], local_inits(arm["body"]))
     if len(calls) != 1:
         raise Unx(f"{len(calls)} format! calls in the writer arm")
     toks = []
@@ -314,6 +314,8 @@ def _writer_tokens(arm, binds):
                 c = peel(c["e"])
             neg, pos = lit_value(_tail(e["then"])), lit_value(_tail(e["else"]))
             lhs = peel(c.get("a") or {})
+            while lhs.get("k") in ("AddrOf",) or (lhs.get("k") == "Unary" and lhs.get("op") == "Deref"):
+                lhs = peel(lhs.get("e") or lhs.get("a"))
             if c.get("k") == "Binary" and c["op"] == "Lt" and lhs.get("k") == "Path" and lhs.get("res") in binds and _zero(c["b"]) and isinstance(neg, str) and isinstance(pos, str):
                 toks.append(("sign", binds.index(lhs["res"]), neg, pos))
             else:
@@ -579,7 +581,10 @@ def c19d(F, R):
     wf = F.fn(sp)
     in_table = {id(x) for x in walk(sm, pats=False)}
     emits = [m for m in walk(wf["hir"]["value"], pats=False) if m.get("k") == "MethodCall" and m["name"].startswith("serialize_")]
-    outside = [m for m in emits if id(m) not in in_table]
+    wl = local_inits(wf["hir"]["value"])
+    # `let key = match self { .. => format!(..) }; serializer.serialize_str(&key)`: one emission of what the table yields
+    via_table = lambda m: any(y is sm for a_ in m["args"] for y in walk_expanded(a_, wl))
+    outside = [m for m in emits if id(m) not in in_table and not via_table(m)]
     if outside:
         R.bad("writer|outside-the-template-table", f"Serialize for MemoryLocation emits text through `{ekey(outside[0])[:60]}` outside its per-variant `format!` table: keys written on that path are not derived from the field by the template the reader inverts (two locations can share one key, or a key can load back as another location)", loc(outside[0]))
     else:
